@@ -80,6 +80,17 @@ def main():
                          '(and their fault plans) compared between the Lean interpreter and the real classes' % n)
         except Exception:
             res.harness_errors.append(traceback.format_exc())
+    # the batch lists (next-batches / previous-batches): Props/C11 proves the translated loops equal to the model and states
+    # the tiling theorems about it; here the model's lists are compared with the real tag's
+    if pid == 'C11' and have_driver:
+        try:
+            import batchlists
+            n = batchlists.run(res, tier)
+            res.rule += ('; batch lists: next-batches / previous-batches of %d windows (grid incl. overlap >= size, zero and '
+                         'negative parameters, lazy sequences) compared between Batch.nextBatches / prevBatches and the real '
+                         'tag' % n)
+        except Exception:
+            res.harness_errors.append(traceback.format_exc())
     try:
         import findings_probe
         findings_probe.run(pid, res)
